@@ -51,6 +51,11 @@ CLAIMED = {
     design='5 C12',
     note='Trusted: z3, canonical exp/log/sqrt rules of chisym/canon.py (validated numerically on every obligation they decide), object-dtype NumPy reductions. Outside: missing values (numpy.ma cannot carry symbolic payloads), zero-variance simulated samples, arrays larger than the bound.',
     technique='symbolic execution on z3 reals with path exploration of np.max + canonical normal form / SMT validity queries; symbolic differentiation as gradient oracle'),
+ 'C13': dict(
+    text='Bounded symbolic verification of chi.PopulationFilterLogPosterior over the uninterpreted mechanistic model and prior: for every population composition within the bound, fixed/free sigma, additive/log-scale noise and unsorted time vectors, z3 decides that value minus (log-prior + population log-density + filter log-likelihood of Y(psi_s) + sigma*eps at the sorted times - sum eps^2/2), rebuilt from the published names and IDs only, has zero derivative in every entry, and that evaluateS1 returns the symbolic derivative of the value entry by entry.',
+    design='5 C13',
+    note='Trusted: z3, canonical stage, the population filters as reference (C12), documented naming conventions. Bounds: 2 simulated individuals (4 for the mixture filter), <=2 observables, <=2 times, compositions of <=2 (3) sub-models. Known finding: covariate model around a pooled dimension.',
+    technique='symbolic execution on z3 reals + names-driven specification interpreter + symbolic differentiation + SMT validity queries'),
 }
 
 NOT_APPLICABLE = {
